@@ -696,6 +696,8 @@ const I2: [u8; 2] = [255, 4];
 const I3A: [u8; 3] = [9, 10, 250];
 const I3B: [u8; 3] = [2, 4, 6];
 const I3C: [u8; 3] = [201, 3, 100];
+/// the other side of the `zip` instances (same length as the longest inputs, not a palindrome)
+const ZIPB: [u8; 3] = [7, 40, 90];
 
 /// `a` has the length and contents of the std iterator `e`
 fn eq_iter<const M: usize, I: Iterator<Item = u8>>(a: [u8; M], mut e: I) -> bool {
@@ -757,6 +759,43 @@ c11_cc! {c11_collect_const_rev, "C11.collect_const.rev_eq_std_collect",
 c11_cc! {c11_collect_const_filter_map_take, "C11.collect_const.filter_map_take_eq_std_collect",
     (filter_map(|x| if *x > 5 { Some(*x / 2) } else { None }), take(2)),
     |it| it.filter_map(|x| if *x > 5 { Some(*x / 2) } else { None }).take(2)}
+
+/// like `c11_cc!`, over a chosen list of the constant inputs
+macro_rules! c11_cc_on {
+    ($name:ident, $ob:literal, [$($inp:ident),+], $bound:literal, $chain:tt, |$it:ident| $std:expr) => {
+        harness! {
+            /// kind=bounded tier=quick bound="enumeration of instance programs: one iterator chain over the listed constant u8 arrays; collect_const! is const-evaluated, so its inputs cannot be symbolic"
+            #[kani::unwind(8)]
+            fn $name(s) {
+                let mut total = 0;
+                $( total += cc_one!(s, $ob, $inp, $chain, |$it| $std); )+
+                cov!(s, total >= 1, "C11.cover.collect_const_nonempty_results");
+            }
+        }
+    };
+}
+
+// `zip(..), rev()`: with both sides of the SAME length konst agrees with std ...
+c11_cc_on! {c11_collect_const_zip_rev_equal_len, "C11.collect_const.zip_rev_equal_lengths_eq_std_collect", [I3A, I3B, I3C], "",
+    (copied(), zip(&ZIPB), map(|(x, y)| x.wrapping_mul(2) ^ *y), rev()),
+    |it| it.copied().zip(ZIPB.iter()).map(|(x, y)| x.wrapping_mul(2) ^ *y).rev()}
+// ... with sides of different lengths it does not (std trims the longer side first, the DSL steps both sides from their own
+// ends), and neither does `take(n), rev()`: genuine divergences of the iterator DSL from std, recorded in known_findings.json
+c11_cc_on! {c11_collect_const_zip_rev_unequal_len, "C11.collect_const.zip_then_rev_unequal_lengths_eq_std_collect", [I1, I2], "",
+    (copied(), zip(&ZIPB), map(|(x, y)| x.wrapping_mul(2) ^ *y), rev()),
+    |it| it.copied().zip(ZIPB.iter()).map(|(x, y)| x.wrapping_mul(2) ^ *y).rev()}
+c11_cc_on! {c11_collect_const_take_rev, "C11.collect_const.take_then_rev_eq_std_collect", [I3A, I3B], "",
+    (copied(), take(2), rev()),
+    |it| it.copied().take(2).rev()}
+c11_cc_on! {c11_collect_const_rev_take, "C11.collect_const.rev_then_take_eq_std_collect", [I0, I1, I2, I3A, I3B, I3C], "",
+    (rev(), copied(), take(2)),
+    |it| it.rev().copied().take(2)}
+c11_cc! {c11_collect_const_rev_zip, "C11.collect_const.rev_zip_eq_std_collect",
+    (rev(), copied(), zip(&ZIPB), map(|(x, y)| x.wrapping_sub(*y))),
+    |it| it.rev().copied().zip(ZIPB.iter()).map(|(x, y)| x.wrapping_sub(*y))}
+c11_cc! {c11_collect_const_enumerate_skip_while, "C11.collect_const.enumerate_skip_while_eq_std_collect",
+    (copied(), enumerate(), skip_while(|(i, x)| *i == 0 && *x > 5), map(|(i, x)| x.wrapping_add(i as u8))),
+    |it| it.copied().enumerate().skip_while(|(i, x)| *i == 0 && *x > 5).map(|(i, x)| x.wrapping_add(i as u8))}
 
 harness! {
     /// kind=bounded tier=quick bound="one instance program: break inside a collect_const! map closure over a constant 3-element array"
